@@ -36,10 +36,12 @@ def reset(sx):
 # independent readers of the frame formats
 # ----------------------------------------------------------------------------
 def bsum(items):
+    """plain sum (callers reduce modulo 256 once; an intermediate mask makes
+    the solver's job needlessly hard on 250-byte sums)"""
     s = 0
     for x in items:
         s = s + x
-    return s & 0xFF
+    return s
 
 
 def pn53x_read(sx, f):
@@ -50,14 +52,14 @@ def pn53x_read(sx, f):
     The value of the postamble byte is not looked at."""
     n = len(f)
     out = []
-    if 8 <= n <= 255 + 7:
+    if 7 <= n <= 255 + 7:
         ln = n - 7
         body = f[5:5 + ln]
         head = sx.all([f[0] == 0, f[1] == 0, f[2] == 0xFF, f[3] == ln,
                        ((f[3] + f[4]) & 0xFF) == 0])
         dcs = ((bsum(body) + f[5 + ln]) & 0xFF) == 0
         out.append(dict(fmt='normal', head=head, dcs=dcs, body=body))
-    if n >= 11:
+    if n >= 10:
         ln = n - 10
         body = f[8:8 + ln]
         head = sx.all([f[0] == 0, f[1] == 0, f[2] == 0xFF, f[3] == 0xFF,
@@ -66,6 +68,16 @@ def pn53x_read(sx, f):
         dcs = ((bsum(body) + f[8 + ln]) & 0xFF) == 0
         out.append(dict(fmt='extended', head=head, dcs=dcs, body=body))
     return out
+
+
+def with_code(readings):
+    """readings whose data field has room for TFI and a command code"""
+    return [r for r in readings if len(r['body']) >= 2]
+
+
+def with_tfi(readings):
+    """readings with a non-empty data field (LEN >= 1)"""
+    return [r for r in readings if len(r['body']) >= 1]
 
 
 def rcs380_read(sx, f):
@@ -114,7 +126,7 @@ def build_pn53x(sx, driver, n, mutable):
         f = f[1:]
     readings = pn53x_read(sx, f)
     fmts = []
-    for r in readings:
+    for r in with_code(readings):
         if driver in NORMAL_ONLY and r['fmt'] != 'normal':
             continue
         if r['fmt'] == 'normal' and n + 2 > 255:
@@ -128,7 +140,7 @@ def build_pn53x(sx, driver, n, mutable):
     sx.check(sx.any([sx.all([r['head'], r['dcs'], r['body'][0] == 0xD4,
                              r['body'][1] == code,
                              items_eq(sx, r['body'][2:], payload)])
-                     for r in fmts]),
+                     for r in with_code(fmts)]),
              "command-frame-content-differs:" + tag)
     sx.check(f[len(f) - 1] == 0, "command-frame-postamble:" + tag)
     sx.reach("built:pn53x:" + ("extended" if n + 2 > 255 else "normal"))
@@ -139,7 +151,7 @@ def build_ccid(sx, n):
     cs, link = make_chipset(sx, 'acr122')
     code = sx.pick("code", sorted(cs.CMD))
     payload = sx.bytes("p", n)
-    link.begin()
+    link.begin(chip=lambda link, idx, code, data: [])
     before = len(link.written)
     ret = cs.command(code, payload, 0.1)
     if len(ret) != 0:
@@ -196,9 +208,16 @@ def build_rcs380(sx, n):
 # (b) acceptance
 # ----------------------------------------------------------------------------
 def judge_pn53x(sx, cs, code, frame, run, tag):
-    """run() calls Chipset.command; frame is the response it is handed"""
+    """run() calls Chipset.command; frame is the response it is handed.
+    Labels separate the ways a frame can be wrongly accepted, so that a known
+    finding for one of them does not hide another."""
     f = list(frame)
+    n = len(f)
     readings = pn53x_read(sx, f)
+    for r in readings:
+        # the implementation's known weakness: checksum taken over the data
+        # field, DCS *and postamble*
+        r['dcs_post'] = ((bsum(r['body']) + f[n - 2] + f[n - 1]) & 0xFF) == 0
     try:
         data = run()
     except IOError:
@@ -206,44 +225,63 @@ def judge_pn53x(sx, cs, code, frame, run, tag):
         return "IOError"
     except nfc.clf.pn53x.Chipset.Error as e:
         # allowed for a well-formed error frame only
+        sx.check(sx.any([r['head'] for r in readings]),
+                 "chipset-error-from-frame-with-invalid-header:" + tag)
+        sx.check(sx.any([r['head'] for r in with_tfi(readings)]),
+                 "chipset-error-from-frame-with-empty-data-field:" + tag)
+        readings = with_tfi(readings)
+        sx.check(sx.any([sx.all([r['head'], sx.any([r['dcs'], r['dcs_post']])])
+                         for r in readings]),
+                 "chipset-error-from-frame-with-wrong-data-checksum:" + tag)
+        sx.check(sx.any([sx.all([r['head'], r['dcs']]) for r in readings]),
+                 "chipset-error-from-frame-whose-postamble-compensates-dcs:" + tag)
         sx.check(sx.any([sx.all([r['head'], r['dcs'], r['body'][0] == 0x7F])
                          for r in readings]),
-                 "chipset-error-from-invalid-frame:" + tag)
+                 "chipset-error-from-frame-without-error-code:" + tag)
         sx.reach("errorframe:pn53x")
         return "Chipset.Error"
+    except Exception as e:
+        # neither data nor IOError: name the exception and the frame length
+        sx.check(False, "crash:%s:framelen=%d:%s" % (type(e).__name__, n, tag))
     if data is None:
         sx.check(False, "command-returned-none:" + tag)
     sx.reach("accepted:pn53x")
     sx.check(sx.any([r['head'] for r in readings]),
              "accepted-frame-with-invalid-header:" + tag)
-    sx.check(sx.any([sx.all([r['head'], r['dcs']]) for r in readings]),
+    sx.check(sx.any([r['head'] for r in with_code(readings)]),
+             "accepted-frame-without-room-for-response-code:" + tag)
+    readings = with_code(readings)
+    sx.check(sx.any([sx.all([r['head'], sx.any([r['dcs'], r['dcs_post']])])
+                     for r in readings]),
              "accepted-frame-with-wrong-data-checksum:" + tag)
+    sx.check(sx.any([sx.all([r['head'], r['dcs']]) for r in readings]),
+             "accepted-frame-whose-postamble-compensates-dcs:" + tag)
     sx.check(sx.any([sx.all([r['head'], r['dcs'], r['body'][0] == 0xD5])
                      for r in readings]),
              "accepted-frame-with-wrong-tfi:" + tag)
     sx.check(sx.any([sx.all([r['head'], r['dcs'], r['body'][0] == 0xD5,
-                             r['body'][1] == code + 1]) for r in readings]),
+                             r['body'][1] == code + 1])
+                     for r in with_code(readings)]),
              "accepted-frame-with-wrong-response-code:" + tag)
     sx.check(sx.any([sx.all([r['head'], r['dcs'], r['body'][0] == 0xD5,
                              r['body'][1] == code + 1,
                              items_eq(sx, r['body'][2:], data)])
-                     for r in readings]),
+                     for r in with_code(readings)]),
              "returned-data-differs-from-frame-data:" + tag)
     return "data"
 
 
-def accept_pn53x(sx, driver, n, mode):
+def accept_pn53x(sx, driver, n, mode, allcodes=0):
     cs, link = make_chipset(sx, driver)
     link.begin()
     frame = sx.bytes("r", n, mutable=True)
     tag = "%s:%s" % (driver, mode)
+    code = sx.pick("code", sorted(cs.CMD) if allcodes else [0x02, 0x42, 0x8C])
     if mode == 'nocmd':
         # cmd_data None: no command written, the response is read directly
-        code = sx.int("code", 0, 255)
         link.queue = [list(frame)]
         run = lambda: cs.command(code, None, 1.0)
     else:
-        code = sx.pick("code", [0x02, 0x42, 0x8C])
         link.raw = [list(ACK), list(frame)] if mode == 'ack' else [list(frame)]
         run = lambda: cs.command(code, b"\x01", 1.0)
     return judge_pn53x(sx, cs, code, frame, run, tag)
@@ -260,7 +298,9 @@ def accept_long(sx, driver, plen, edit):
     cs, link = make_chipset(sx, driver)
     link.begin()
     code = 0x42
-    payload = list(sx.bytes("p", plen))
+    # concrete payload: 250-term symbolic checksums make the solver prove
+    # equivalences of adder chains; the edited positions carry the symbols
+    payload = [(i * 7 + 3) & 0xFF for i in range(plen)]
     f = pn53x_frame([0xD5, code + 1] + payload)
     n = len(f)
     ext = plen + 2 > 255
